@@ -107,6 +107,7 @@ def check(repo: Repo) -> Result:
             e.extend(ds)
         elif a is not None:
             e.append(norm(a))
+    unit_copy_values(repo, res, r4)
     res.check(bool(e) and all(x in ("self.expr", "str(self.expr)") for x in e), "Unit.copy:expr", fn.where(), "Unit.copy builds the copy from the original's expression (the object, or its printed text)", "self.expr | str(self.expr)", e, rid=r4)
     text_columns(repo, res)
     return res
@@ -175,6 +176,34 @@ def restoration_routes(repo, res, rid):
     fj = reg.func("UnitRegistry.from_json")
     rec("lut = _correct_old_unit_registry(data, sympify=True)" in [norm(s) for s in fj.body], "json:route", fj.where(), "from_json sends every entry through the fixer with sympify=True")
     return ok_all, problems
+
+
+def unit_copy_values(repo, res, rid):
+    """Unit.copy / deepcopy hands the copy the original's scale, offset and dimension (an argument left out takes the
+    constructor's default: offset 0, or values re-derived from the registry's current table)"""
+    from engine.sem import summarise
+    from rules.common import bind_call
+
+    uo = repo.mod(UO)
+    fn = uo.func("Unit.copy")
+    new = uo.func("Unit.__new__")
+    n = 0
+    bad = []
+    for x in summarise(fn):
+        if x.kind != "return":
+            continue
+        v = ast.parse(x.value, mode="eval").body
+        if not (isinstance(v, ast.Call) and norm(v.func) == "Unit"):
+            raise AnalysisError(f"{fn.where()}: Unit.copy returns something that is not a Unit(...) call")
+        n += 1
+        b = bind_call(v, new, skip_self=True)
+        for arg in ("base_value", "base_offset", "dimensions"):
+            got = norm(b[arg]) if b.get(arg) is not None else None
+            if got not in (f"self.{arg}", f"copy.deepcopy(self.{arg})", f"deepcopy(self.{arg})", f"float(self.{arg})"):
+                bad.append(f"{arg}={got}")
+    if n == 0:
+        raise AnalysisError(f"{fn.where()}: no returning path in Unit.copy")
+    res.check(not bad, "Unit.copy:values", fn.where(), "the copy of a unit must carry the original's scale, offset and dimension: an argument that is left out becomes the constructor's default (offset 0 for degC / lat) or is re-derived from the registry's current table", "base_value, base_offset, dimensions of self", sorted(set(bad)), rid=rid)
 
 
 def text_columns(repo, res):
@@ -391,4 +420,5 @@ MUTANTS = [
     Mutant("loadtxt-units-atleast1d", ARR, "loadtxt", "units = [units[col] for col in usecols]", "units = [units[col] for col in np.atleast_1d(usecols)]", (), benign=True),
     Mutant("savetxt-skips-bare-arrays", ARR, "savetxt", "        else:\n            units.append(\"dimensionless\")\n", "", ("C11-R5",)),
     Mutant("to-json-skips-default-names", REG, "UnitRegistry.to_json", "            san_v = list(v)\n", "            if k in default_unit_symbol_lut:\n                continue\n            san_v = list(v)\n", ("C11-R3",)),
+    Mutant("unit-copy-drops-offset", UO, "Unit.copy", "return Unit(expr, base_value, base_offset, dimensions, registry)", "return Unit(expr, base_value=base_value, dimensions=dimensions, registry=registry)", ("C11-R4",)),
 ]
